@@ -443,6 +443,25 @@ func oracleMaxMessageSize(s *Sim, y *Sys) {
 
 // setEnumFields sets every field of a named int32 type (the generated enums) to a small number.
 func setEnumFields(t *Tape, v reflect.Value, depth int) int {
+	// one enum field (tape-chosen) gets a tape-chosen small number; the others keep their valid
+	// values, so that the frame stays decodable whenever the chosen number is a member of the enum
+	total := walkEnumFields(v, 0, nil)
+	if total == 0 {
+		return 0
+	}
+	target, val := t.Choose("enum-field", total), int64(t.Choose("enum-v", 128))
+	k := 0
+	walkEnumFields(v, 0, func(f reflect.Value) {
+		if k == target {
+			f.SetInt(val)
+		}
+		k++
+	})
+	return 1
+}
+
+// walkEnumFields visits every settable enum-like field (named int32 type) under v and returns their number.
+func walkEnumFields(v reflect.Value, depth int, visit func(reflect.Value)) int {
 	for v.Kind() == reflect.Ptr || v.Kind() == reflect.Interface {
 		if v.IsNil() {
 			return 0
@@ -461,15 +480,17 @@ func setEnumFields(t *Tape, v reflect.Value, depth int) int {
 				continue
 			}
 			if f.Kind() == reflect.Int32 && f.Type().Name() != "int32" {
-				f.SetInt(int64(t.Choose("enum-v", 128)))
+				if visit != nil {
+					visit(f)
+				}
 				n++
 				continue
 			}
-			n += setEnumFields(t, f, depth+1)
+			n += walkEnumFields(f, depth+1, visit)
 		}
 	case reflect.Slice:
 		for i := 0; i < v.Len(); i++ {
-			n += setEnumFields(t, v.Index(i), depth+1)
+			n += walkEnumFields(v.Index(i), depth+1, visit)
 		}
 	}
 	return n
@@ -628,7 +649,7 @@ func structuralHostile(s *Sim, l *Link, upAlias, downAlias uint32, outstanding u
 	if err != nil {
 		return nil, ""
 	}
-	if t.Bool("sh-enum-sweep", 1, 3) {
+	if t.Bool("sh-enum-sweep", 1, 2) {
 		// only the enum-like fields (result codes, QoS, ...) are changed, each to some small number:
 		// every member of the enums, including the ones the implementation rarely meets
 		n := setEnumFields(t, reflect.ValueOf(pb), 0)
